@@ -17,7 +17,7 @@ MANIFEST_ENTRY = {
 
 
 def plan(tier, seed, avoid):
-    n, per = (480, 15) if tier == "quick" else (16000, 250)
+    n, per = (480, 15) if tier == "quick" else (8000, 125)
     return [{"start": s, "count": per} for s in range(0, n, per)]
 
 
